@@ -28,10 +28,15 @@ type faultParams struct {
 	extra   int    // threshold = healthy + extra
 	late    bool   // healthy nodes answer only after the fault has been processed
 	pre     bool   // the fault strikes before the call is issued
+	prior   int    // earlier stream resets of the failing nodes, each healed before the next event (history)
 }
 
 func (p faultParams) name() string {
-	return fmt.Sprintf("fault/%s/n=%d/failing=%v/%s/thr=healthy+%d/late=%v/pre=%v", p.kind, p.n, p.failing, p.fault, p.extra, p.late, p.pre)
+	h := ""
+	if p.prior > 0 {
+		h = fmt.Sprintf("/after-%d-healed-resets", p.prior)
+	}
+	return fmt.Sprintf("fault/%s/n=%d/failing=%v/%s/thr=healthy+%d/late=%v/pre=%v%s", p.kind, p.n, p.failing, p.fault, p.extra, p.late, p.pre, h)
 }
 
 var errCodes = map[string]codes.Code{"err-NotFound": codes.NotFound, "err-Internal": codes.Internal, "err-Unavailable": codes.Unavailable, "err-Canceled": codes.Canceled}
@@ -127,6 +132,16 @@ func faultScenario(p faultParams) func() {
 		}
 		healthy := p.n - len(p.failing)
 		thr := healthy + p.extra
+		for i := 0; i < p.prior; i++ {
+			// history: the stream of each failing node breaks while the client is idle and is re-created
+			for _, f := range p.failing {
+				w.FW.Reset(world.Addr(f))
+			}
+			mc.Quiesce()
+			for j := 0; j < 4 && mc.FireTimers(nil) > 0; j++ {
+				mc.Quiesce()
+			}
+		}
 		if slowStream {
 			// on each failing node a correctable stream call whose quorum function blocks at the first reply:
 			// the second reply fills its reply channel, so the node's receiver can be held up while it
@@ -358,6 +373,14 @@ func faultInstances(tier string) []Instance {
 							}
 							p := faultParams{kind: kind, n: s.n, failing: s.failing, fault: f, extra: extra, late: late, pre: pre}
 							out = append(out, Instance{Name: p.name(), Bound: bound, Root: faultScenario(p)})
+							if s.n == 2 && len(s.failing) == 1 && !late && (f == "down" || active || f == "err-Unknown") {
+								// the same with a history of two healed stream resets on the failing node
+								p.prior = 2
+								if f == "down" {
+									continue // a node that is down at creation has no stream to reset
+								}
+								out = append(out, Instance{Name: p.name(), Bound: min(bound, 1), Root: faultScenario(p)})
+							}
 						}
 					}
 				}
@@ -369,7 +392,7 @@ func faultInstances(tier string) []Instance {
 
 func init() {
 	register(&Check{ID: "C07",
-		Rule:        "fault enumeration: n in {2,3} x failing subset (minority, majority, all) x failure kind {down at creation, crash, stream reset, crash+restart, crash / reset while the request is still queued behind a sender blocked on a full window (also with a stream call whose quorum function is blocked pending on the failing node), handler error with code Unknown/NotFound/Internal/Unavailable/Canceled} x threshold {healthy, healthy+1} x healthy nodes answering before / after the fault x fault position {before the call, free-running fault thread placed by the explorer at every instant within the deviation bound} x {quorum call, async (+correctable, combo in thorough)}; armed back-off timers are fired to a horizon of 4 rounds before the progress oracle; oracle: success iff the healthy replies satisfy the quorum function, Incomplete names every failing node exactly once with the handler's status or an unavailable-type error, the quorum function never sees a failed node, no call is left waiting for a node whose connection broke (unless that node received the request on a stream created after the fault); an outcome is (instance, result class)",
+		Rule:        "fault enumeration: n in {2,3} x failing subset (minority, majority, all) x failure kind {down at creation, crash, stream reset, crash+restart, crash / reset while the request is still queued behind a sender blocked on a full window (also with a stream call whose quorum function is blocked pending on the failing node), handler error with code Unknown/NotFound/Internal/Unavailable/Canceled} x threshold {healthy, healthy+1} x healthy nodes answering before / after the fault x fault position {before the call, adversary fault thread placed by the explorer at every instant within the deviation bound} x history {none, two earlier stream resets of the failing node healed while idle} x {quorum call, async (+correctable, combo in thorough)}; armed back-off timers are fired to a horizon of 4 rounds before the progress oracle; oracle: success iff the healthy replies satisfy the quorum function, Incomplete names every failing node exactly once with the handler's status or an unavailable-type error, the quorum function never sees a failed node, no call is left waiting for a node whose connection broke (unless that node received the request on a stream created after the fault); an outcome is (instance, result class)",
 		Gen:         faultInstances,
 		Assumptions: []string{"a node with a connection fault never answers (its handler blocks), so it can only contribute an error", "crashes drop in-flight frames (fakegrpc); eventual completion is decided after firing the armed library timers 4 rounds"},
 	})
